@@ -20,7 +20,7 @@ EXPLANATION = ("Closed step obligations (eval): for each of the nine property mo
 def units(tier):
     # the functions that carry a table through the formula layer: which table an atom is taken from is a value-level
     # question and is under contract; the loader protocol itself is not (see EXPLANATION)
-    return [W.U_FORMULA_CHANGE_TABLE, K.U_CHANGE_TABLE] + G.U_PARSE_FORMULA + K.U_TABLE_ISOTOPE + [K.U_SYMBOL]
+    return [W.U_FORMULA_CHANGE_TABLE, K.U_CHANGE_TABLE] + G.U_PARSE_FORMULA + K.U_TABLE_ISOTOPE + [K.U_SYMBOL] + K.U_GET_TABLE + K.U_MAKE
 
 
 def runner_tasks(tier):
